@@ -26,7 +26,7 @@ pub(crate) async fn cleanup_stopped_child_resources(
   endpoint_uri_opt: Option<&str>,
   error_opt: Option<&ZmqError>,
   is_full_core_shutdown: bool,
-) -> bool {
+) -> Option<String> {
   let core_handle = core_arc.handle;
   tracing::debug!(
     parent_core_handle = core_handle,
@@ -39,7 +39,8 @@ pub(crate) async fn cleanup_stopped_child_resources(
 
   let mut removed_endpoint_info: Option<EndpointInfo> = None;
   let mut detached_pipe_read_id: Option<usize> = None;
-  let mut should_consider_reconnect = false;
+  // The endpoint to connect to again (what the user passed to connect(), not the connection's own URI).
+  let mut should_consider_reconnect: Option<String> = None;
 
   // Find and remove the EndpointInfo from the main map.
   // This is the most reliable way to get all associated info (URI, pipe IDs, etc.).
@@ -126,7 +127,12 @@ pub(crate) async fn cleanup_stopped_child_resources(
       if reconnect_ivl_is_positive
         && !crate::transport::tcp::is_fatal_connect_error(error_opt.unwrap())
       {
-        should_consider_reconnect = true;
+        should_consider_reconnect = Some(
+          ep_info
+            .target_endpoint_uri
+            .clone()
+            .unwrap_or_else(|| ep_info.endpoint_uri.clone()),
+        );
       }
     }
   } else {
